@@ -296,6 +296,33 @@ def main():
         for sub, pos in [("version", None), ("flow", None), ("check", "1.2.3"), ("render", "1.2.3")]:
             judge(sub, pos, {})
         _tls_bin.bin = None
+    # a command that succeeds *slowly*: the wrapper returns its output however long it took. The stub really sleeps 2 s; the child
+    # interpreter that makes the call runs with a monotonic clock scaled 100 000 times (shims/faketime.c, ZERV_VERIF_MONO_SCALE),
+    # so to any timeout the wrapper might measure the command took about 55 hours
+    if os.environ.get("LD_PRELOAD"):
+        import subprocess as _sp
+        stub = os.path.join(stub_dir, "zerv-slow")
+        open(stub, "w").write(f"#!/bin/sh\nsleep 2\nexec {BIN} \"$@\"\n")
+        os.chmod(stub, os.stat(stub).st_mode | stat.S_IEXEC)
+        prog = ("import sys, time, zerv\n"
+                "t0 = time.monotonic()\n"
+                f"zerv.find_zerv_bin = lambda: {stub!r}\n"
+                "calls = {'version': lambda: zerv.version(source='none', tag_version='1.2.3'), 'flow': lambda: zerv.flow(source='none', tag_version='1.2.3'), 'check': lambda: zerv.check('1.2.3'), 'render': lambda: zerv.render('1.2.3')}\n"
+                "try:\n    out = calls[sys.argv[1]]()\n    print('OK', repr(out))\nexcept BaseException as e:\n    print('RAISED', type(e).__name__, str(e)[:200])\n"
+                "print('ELAPSED', time.monotonic() - t0)\n")
+        for sub in ["version", "flow", "check", "render"]:
+            counts["api_calls"] = counts.get("api_calls", 0) + 1
+            counts["slow_command_calls"] = counts.get("slow_command_calls", 0) + 1
+            env = dict(os.environ, ZERV_VERIF_MONO_SCALE="100000")
+            r = _sp.run([sys.executable, "-c", prog, sub], env=env, stdin=_sp.DEVNULL, capture_output=True, text=True, timeout=120)
+            lines = r.stdout.strip().splitlines()
+            elapsed = next((float(l.split()[1]) for l in lines if l.startswith("ELAPSED")), 0.0)
+            if elapsed < 3600:
+                print("MACHINERY: the scaled monotonic clock is not in effect in the child interpreter:", r.stdout[:300], r.stderr[:300]); sys.exit(2)
+            direct = _sp.run([BIN, sub] + (["--source", "none", "--tag-version", "1.2.3"] if sub in ("version", "flow") else ["1.2.3"]), stdin=_sp.DEVNULL, capture_output=True, text=True)
+            want = "OK " + repr(direct.stdout.strip())
+            if not lines or lines[0] != want:
+                viol("slow_command_not_returned", f"zerv.{sub}() on a command that takes 2 s (about 55 h by the caller's monotonic clock)", f"the wrapper gave {lines[:1]}, the command line prints {direct.stdout.strip()!r} with exit {direct.returncode}", {"kind": "slow", "sub": sub})
     # and a stub that exits 3 after printing, and one that succeeds with surrounding white space (stripped stdout)
     for name, body, in [("exit3", "echo 9.9.9\nexit 3\n"), ("spaces", "printf '  \\n 7.7.7 \\n\\n'\n")]:
         stub = os.path.join(stub_dir, f"zerv-{name}")
